@@ -49,6 +49,49 @@ def identity_histories(r, thorough):
     return cases
 
 
+def direct_pending_hangup_histories(r, thorough):
+    """a connection ends (or its request times out) while its client direct message is suspended in the modulator, or while
+    any other request of it is: afterwards the name is free again and its memberships are gone.  Outside the sequential
+    model (parked calls): judged by the tracker's "refused although no live connection holds the name" and the audit."""
+    import srvmon
+    cases = []
+    for i in range(12 if thorough else 4):
+        mod = {"ops": ["fwd-event", "send-private-payload"], "proto": "P/1"}
+        cfg = sl.base_cfg(r, mod)
+        cfg.update({"max_clients": 10, "max_subs": 10, "max_conns": 16, "max_channels": 100, "max_inflight": 10, "request_timeout_ms": 5000})
+        g = sl.Gen(r, cfg)
+        ks = sl._login(g, ["alice", "bob"])
+        ch = "!c1@localhost"
+        g.send(ks["alice"], sl.frame("JOIN", [("id", g.rid()), ("channel", ch)]), [])
+        g.send(ks["bob"], sl.frame("JOIN", [("id", g.rid()), ("channel", ch)]), [])
+        what = ["direct", "direct", "join", "bcast"][i % 4]
+        if what == "direct":
+            g.ops.append({"t": "send", "k": ks["bob"], "bytes": sl.frame("MOD_DIRECT", [("id", g.rid()), ("from", "bob"), ("length", 5)], b"hello").hex(), "script": [{"park": 1}]})
+        elif what == "join":
+            g.ops.append({"t": "send", "k": ks["bob"], "bytes": sl.frame("JOIN", [("id", g.rid()), ("channel", "!c2@localhost")]).hex(), "script": [{"park": 1}]})
+        else:
+            g.ops.append({"t": "send", "k": ks["bob"], "bytes": sl.frame("LEAVE", [("id", g.rid()), ("channel", ch)]).hex(), "script": [{"park": 1}]})
+        if i % 2 == 0:
+            g.ops.append({"t": "hangup", "k": ks["bob"], "script": []})
+            del g.conns[ks["bob"]]
+            g.ops.append({"t": "release", "id": 1, "outcome": r.choice(["ok", "err"])})
+        else:
+            g.ops.append({"t": "advance", "ms": 6000})          # the request is dropped at its time-out
+            g.ops.append({"t": "release", "id": 1, "outcome": "ok"})
+            g.ops.append({"t": "hangup", "k": ks["bob"], "script": []})
+            del g.conns[ks["bob"]]
+        g.ops.append({"t": "advance", "ms": 50})
+        k = g.next_k
+        g.next_k += 1
+        g.ops.append({"t": "open", "k": k})
+        g.ops.append({"t": "send", "k": k, "bytes": sl.frame("CONNECT", [("version", 1), ("heartbeat_interval", 0)]).hex(), "script": []})
+        g.ops.append({"t": "send", "k": k, "bytes": sl.frame("IDENTIFY", [("username", "bob")]).hex(), "script": []})
+        g.conns[k] = {"phase": 2, "user": "bob"}
+        ops = g.ops + srvmon.audit_ops(g)
+        cases.append({"cfg": cfg, "ops": ops, "nomodel": True, "also": ["C05"]})
+    return cases
+
+
 def exclusive_stage(thorough, violations, stats):
     """several threads IDENTIFY (register exclusively) under one name at the same instant, round after round, on the real
     c2s::Router: exactly one wins each round (supporting evidence for what no single-threaded history can reach)"""
@@ -65,5 +108,5 @@ def exclusive_stage(thorough, violations, stats):
 
 
 def run(tier, replay=None):
-    return srvprops.run(PROP, THEOREMS, tier, replay, extra_stage=exclusive_stage, extra_gen=lambda r, th: identity_histories(r, th) + sl.stalled_drop_histories(r, th) + sl.retry_identify_histories(r, th),
+    return srvprops.run(PROP, THEOREMS, tier, replay, extra_stage=exclusive_stage, extra_gen=lambda r, th: identity_histories(r, th) + sl.stalled_drop_histories(r, th) + sl.retry_identify_histories(r, th) + direct_pending_hangup_histories(r, th),
                         rule_note="plus retried-IDENTIFY histories (refused under a name in use, then identified under a free name: the acknowledged identity is the new one); plus identity histories: IDENTIFY with usernames over Unicode whitespace / alphanumeric / punctuation / emoji / zero-width code points, padding, lengths around 256 bytes, name re-use after hang-up, and after a connection that ended through the write-error path (stalled peer vanishing)")
